@@ -200,6 +200,12 @@ class C11(Prop):
         _, script = G.ref_random(spec, rng)
         case['scripts'].append(script)
         case['seeds'].append(rng.below(1 << 30))
+    case['prevs'] = []
+    if not custom and case['scripts']:
+      # random_dna(previous_dna=…): a member, and a one-step corruption of it
+      cand = [d for d in case['dnas'] if d['kind'] == 'member'][:1] + [d for d in case['dnas'] if d['kind'] != 'member'][:1]
+      for d in cand:
+        case['prevs'].append({'prev': d['tree'], 'script': case['scripts'][0], 'member': d['kind'] == 'member'})
     trees = [d['tree'] for d in case['dnas']]
     for _ in range(min(4, len(trees))):
       case['cmps'].append([rng.choice(trees), rng.choice(trees)])
@@ -261,7 +267,8 @@ class C11(Prop):
     return {'op': 'space', 'spec': case['spec'], 'fuel': case['fuel'], 'sweep_cap': SWEEP_CAP,
             'want_first': not G.has_custom(case['spec']),
             'dnas': [d['tree'] for d in case['dnas']],
-            'draws': case['scripts'], 'cmps': case['cmps']}
+            'draws': case['scripts'], 'cmps': case['cmps'],
+            'prev_draws': [{'prev': p['prev'], 'draws': p['script']} for p in case.get('prevs', [])]}
 
   # -- implementation ---------------------------------------------------------------------
   def sweep(self, geno, spec, fuel):
@@ -369,6 +376,39 @@ class C11(Prop):
       except Exception as e:   # pylint: disable=broad-except
         randoms.append({'error': type(e).__name__})
     out['randoms'] = randoms
+    prev_randoms = []
+    for p in case.get('prevs', []):
+      r = ScriptedRandom(p['script'])
+      try:
+        prev = mk_dna(p['prev'])
+        if p['member']:
+          prev.use_spec(spec)
+        d = spec.random_dna(r, previous_dna=prev)
+        prev_randoms.append({'dna': tree_of(d), 'left': len(p['script']) - r.pos})
+      except CaseTimeout:
+        raise
+      except ScriptMismatch as e:
+        prev_randoms.append({'mismatch': str(e)[:200]})
+      except Exception as e:   # pylint: disable=broad-except
+        prev_randoms.append(None)
+        obs.setdefault('prev_errors', []).append([p['member'], type(e).__name__])
+    out['prev_randoms'] = prev_randoms
+    # iteration without attaching the spec
+    if case['fuel'] > 0:
+      try:
+        raw, d = [], None
+        for _ in range(case['fuel']):
+          d = spec.next_dna(d, attach_spec=False)
+          if d is None:
+            break
+          raw.append(d)
+        obs['iter_unattached'] = [tree_of(x) for x in raw]
+        obs['unattached_unbound'] = all(x.spec is None for x in raw)
+        obs['first_unattached'] = tree_of(spec.first_dna(attach_spec=False))
+      except CaseTimeout:
+        raise
+      except Exception as e:   # pylint: disable=broad-except
+        obs['iter_unattached'] = type(e).__name__
     seeded = []
     for seed in case['seeds']:
       try:
@@ -427,6 +467,7 @@ class C11(Prop):
       else:
         chk('random[%d]' % i, ra, rb)
     chk('cmps', a['cmps'], b['cmps'])
+    chk('random_dna(previous_dna)', a.get('prev_randoms', []), b.get('prev_randoms', []))
     chk('lens', (len(a['checks']), len(a['randoms'])), (len(b['checks']), len(b['randoms'])))
     return '; '.join(diffs) if diffs else None
 
@@ -476,6 +517,18 @@ class C11(Prop):
         return {'signature': 'iter-unbound', 'what': 'iter_dna returned a DNA without spec'}
     elif finite is False and m['size'] != -1:
       return {'signature': 'infinite-space-with-size', 'what': 'space_size=%s for a spec with float/custom points' % m['size']}
+    if finite and case['fuel'] > 0 and 'iter_unattached' in obs:
+      if obs['iter_unattached'] != m['iter']['dnas'] or not obs.get('unattached_unbound') or \
+          obs.get('first_unattached') != m.get('first'):
+        return {'signature': 'attach-spec-false-differs',
+                'what': 'next_dna / first_dna with attach_spec=False differ from the bound iteration or return '
+                        'bound DNAs: %s' % str(obs['iter_unattached'])[:300]}
+    for (was_member, err) in obs.get('prev_errors', []):
+      if was_member:
+        return {'signature': 'random-previous-raises', 'what': 'random_dna(previous_dna=<member>) raised %s' % err}
+    for r, p in zip(m.get('prev_randoms', []), case.get('prevs', [])):
+      if r and 'dna' in r and not G.ref_valid(spec, r['dna']):
+        return {'signature': 'random-not-a-member', 'what': 'random_dna(previous_dna=%s) returned %s' % (p['prev'], r['dna'])}
     # validation and binding accept exactly the members
     for d, c in zip(case['dnas'], m['checks']):
       if 'construct' in c:
